@@ -80,8 +80,7 @@ theorem finishDir_out (t a : Prim) (ht : isTestP t = true) (ha : isOutP a = true
 
 /-- one starting point -/
 theorem processDir_out (c : Config) (t a : Prim) (ht : isTestP t = true) (ha : isOutP a = true)
-    (start : Bytes) (root : Node Attr) (g : GS)
-    (hH : (refCfg c).depthFirst = true → ¬ HRootLink (refCfg c) (if c.sorted then sortNode root else root)) :
+    (start : Bytes) (root : Node Attr) (g : GS) :
     let n := if c.sorted then sortNode root else root
     let r := processDir c (.and [.prim t, .prim a]) start (some root) g
     r.gs.out = g.out ++ (visitsN (refCfg c) [] 0 n).flatMap (written start t a) ∧ r.quit = false := by
@@ -94,7 +93,7 @@ theorem processDir_out (c : Config) (t a : Prim) (ht : isTestP t = true) (ha : i
     · refine processRoot_pre (refCfg c) (evalEntry m start) hdf ?_ n _
       intro v s hp
       rw [(hev v s).1] at hp; cases hp
-    · exact processRoot_post (refCfg c) (evalEntry m start) hdf n (hH hdf) _
+    · exact processRoot_postAny (refCfg c) (evalEntry m start) hdf n _
   have hex := refNode_exact (refCfg c) (evalEntry m start) GS.out (written start t a) hev [] 0 n
     ⟨{ g with curDir := none }, 0, 0⟩
   show (processDir c m start (some root) g).gs.out = _ ∧ (processDir c m start (some root) g).quit = false
@@ -112,9 +111,7 @@ def writtenRoot (c : Config) (t a : Prim) (x : Bytes × Option (Node Attr)) : By
 
 /-- **All starting points, in the order given, isolated on error.** -/
 theorem doFind_out (c : Config) (t a : Prim) (ht : isTestP t = true) (ha : isOutP a = true)
-    (roots : List (Bytes × Option (Node Attr)))
-    (hH : ∀ x ∈ roots, ∀ r, x.2 = some r → (refCfg c).depthFirst = true →
-      ¬ HRootLink (refCfg c) (if c.sorted then sortNode r else r)) :
+    (roots : List (Bytes × Option (Node Attr))) :
     ∀ (g : GS) (ret diags : Nat),
       let res := doFind c (.and [.prim t, .prim a]) roots g ret diags
       res.gs.out = g.out ++ roots.flatMap (writtenRoot c t a) ∧
@@ -124,7 +121,7 @@ theorem doFind_out (c : Config) (t a : Prim) (ht : isTestP t = true) (ha : isOut
   | cons x xs ih =>
     intro g ret diags
     obtain ⟨start, root⟩ := x
-    have ih' := ih (fun y hy => hH y (by simp [hy]))
+    have ih' := ih
     simp only [doFind]
     cases root with
     | none =>
@@ -140,7 +137,7 @@ theorem doFind_out (c : Config) (t a : Prim) (ht : isTestP t = true) (ha : isOut
       refine ⟨by rw [this.1, h1]; simp [writtenRoot], fun _ => this.2 (Or.inl ?_)⟩
       simp [h3]
     | some r =>
-      obtain ⟨ho, hq⟩ := processDir_out c t a ht ha start r g (hH (start, some r) (by simp) r rfl)
+      obtain ⟨ho, hq⟩ := processDir_out c t a ht ha start r g
       simp only [hq, Bool.false_eq_true, if_false]
       have := ih' (processDir c (.and [.prim t, .prim a]) start (some r) g).gs
         (if (processDir c (.and [.prim t, .prim a]) start (some r) g).ret != 0 then
